@@ -569,6 +569,8 @@ func checkRoundTrip(init *mp4.InitSegment, adds []*op, descs [][]*op, wit string
 				checkConfig(t, e, o, true, j == lastVisual, wit)
 			} else if o.kind == 'C' {
 				checkAAC(e, o, wit, "-decoded")
+			} else if o.kind == '3' || o.kind == 'E' {
+				checkAc3Decoded(e, o, wit)
 			}
 		}
 	}
